@@ -14,7 +14,7 @@ CODEC_TRUSTED = [
 
 PROP = dict(
     title="Canonical encoding round-trips and reports its own size",
-    family="codec", harness="codec", run_vo="Run/Codec.vo",
+    family="codec", thorough_scale=0.3, model_workers=6, harness="codec", run_vo="Run/Codec.vo",
     theorems=["C01_schemas_ok", "C01_size", "C01_size_exact", "C01_aligned", "C01_roundtrip", "C01_exempt",
               "C01_exempt_nothing_else", "C01_erase_id", "C01_nonvacuous",
               "C01_refuted_empty_predicate", "C01_refuted_empty_data", "C01_refuted_maturity", "C01_refuted_expiration",
